@@ -104,6 +104,17 @@ def replay(case):
             if case.get('step') == 'extremes':
                 return {'violates': True, 'observed': case.get('info'), 'key': 'extremes'}
             o = inp['o']
+            sized = sp.bounded
+            if sized:
+                lo_o = int(fmt.to_ordinal(fmt.smallest())); hi_o = int(fmt.to_ordinal(fmt.largest()))
+                if not (lo_o <= o <= hi_o):
+                    try:
+                        x = fmt.from_ordinal(o)
+                        if not x.is_nar() or desc['fam'] == 'Exp':
+                            problems.append(('from_ordinal accepted %d outside [%d, %d]' % (o, lo_o, hi_o), str(_val(x))))
+                    except (ValueError, TypeError, OverflowError):
+                        pass
+                    return {'violates': bool(problems), 'observed': {'problems': [list(map(str, p)) for p in problems[:4]], 'format': repr(fmt)}, 'key': 'contig:outside-range'}
             x = fmt.from_ordinal(o)
             v = _val(x)
             if v[0] != 'fin' or not (v[2] == 0 or _member(desc, sp, v[1], v[2])):
